@@ -23,7 +23,7 @@ OBLIGATIONS = [
     'C02.binop_sound', 'C02.selfW_trE', 'C02.trE_both', 'C02.trE_sound', 'C02.trE_cond_sound', 'C02.transpile_expr_sound',
     'C02.transpile_port_assign_sound', 'C02.transpile_cond_sound', 'C02.val_ite',
     # statement / cycle / history level
-    'C02.trS_sound', 'C02.cycle_sound', 'C02.transpile_seq_sound_partial', 'C02.fstore_laws', 'C02.agree0', 'C02.crel0', 'C02.okS0',
+    'C02.later_noop', 'C02.trS_sound', 'C02.cycle_sound', 'C02.transpile_seq_sound_partial', 'C02.fstore_laws', 'C02.agree0', 'C02.crel0', 'C02.okS0',
     'C02.refuse_or_sound', 'C02.refuse_complete',
     # combinational bodies
     'C02.p2p_exec', 'C02.comb_sound', 'C02.transpile_comb_sound_all', 'C02.supported_comb', 'C02.crelC', 'C02.okC0', 'C02.norap0',
@@ -46,7 +46,7 @@ PROPOSED_FINDINGS = [
      "witness": {"src": "y = 1 if self.a.get() > 2 else 2; self.r.prepare(y)"},
      "what": "a ternary `x if c else y` is accepted and emitted as the statement text `y=if (c) begin 1 end else begin 2 end;` (not Verilog); "
              "ReplaceIf.visit_IfExp fires before ReplaceIfExp can produce `?:`"},
-    {"id": "C02-guarded-case", "property": "C02", "status": "known", "anchor": "py4hw/transpilation/python2verilog_transpilation.py:389",
+    {"id": "C02-guarded-case", "property": "C02", "status": "fixed", "fixed_by": "edb114b", "anchor": "py4hw/transpilation/python2verilog_transpilation.py:389",
      "class_expr": "'case-guard' in r.get('reasons', []) and r.get('kind') in ('mismatch','x-after-write','x-state','x-consequence')",
      "witness": {"src": "match self.st:\n case 0 if self.a.get()==1: self.st=1\n case _: self.st=2", "history": [{"a": 0}], "signal": "st", "sim": 2, "verilog": 0},
      "what": "`case V if guard:` becomes `V: if (guard) ...` inside the Verilog case arm: when the guard fails Python falls through to the "
@@ -81,7 +81,7 @@ PROPOSED_FINDINGS = [
      "witness": {"class": "SelectType (test/unit/Test_RtlGeneration.py): self.imm_type = self.addOut('imm_typ', ...)", "signal": "imm_typ"},
      "what": "ports are referenced in the body by ATTRIBUTE name but declared in the header by PORT name: SelectType drives the undeclared "
              "identifier `imm_type` and its port `imm_typ` is never assigned"},
-    {"id": "C02-name-clash", "property": "C02", "status": "known", "anchor": "py4hw/transpilation/python2verilog_transpilation.py:568",
+    {"id": "C02-name-clash", "property": "C02", "status": "fixed", "fixed_by": "5f87e48", "anchor": "py4hw/transpilation/python2verilog_transpilation.py:568",
      "class_expr": "'name-clash' in r.get('reasons', []) and r.get('kind') in ('mismatch','x-after-write','x-state','x-consequence','unparseable','v-error')",
      "witness": {"src": "s0 = self.a.get() + 1; self.r.prepare(s0 + self.s0)", "history": [{"a": 1}], "signal": "s0"},
      "what": "a local variable and `self.<same name>` (state attribute, port or constructor constant) become the SAME Verilog identifier"},
@@ -701,6 +701,21 @@ class WMultiInit(py4hw.Logic):
         if self.a.get() == 1:
             self.count = (self.count + 1) & 255
 
+class WGuardLast(py4hw.Logic):
+    def __init__(self, parent, name, a, b, r):
+        super().__init__(parent, name)
+        self.a = self.addIn('a', a)
+        self.b = self.addIn('b', b)
+        self.r = self.addOut('r', r)
+        self.st = 0
+    def clock(self):
+        match self.st:
+            case 0 if self.a.get() == 1:
+                self.st = 1
+            case 1:
+                self.st = 0
+        self.r.prepare(self.st + 4)
+
 class WGuardedWildcard(py4hw.Logic):
     def __init__(self, parent, name, a, b, r):
         super().__init__(parent, name)
@@ -800,7 +815,10 @@ WITNESSES = [  # (class, history, expected finding id)
     ('WValueTarget', [{'a': 5, 'b': 0}, {'a': 7, 'b': 0}], 'regression:refuse'),
     # the constructor assigns a state attribute several times: the `initial` block must leave the LAST constant
     ('WMultiInit', [{'a': 1, 'b': 0}, {'a': 0, 'b': 0}, {'a': 1, 'b': 0}, {'a': 1, 'b': 0}], 'regression:agree'),
-    ('WGuard', [{'a': 0, 'b': 0}, {'a': 0, 'b': 0}], 'C02-guarded-case'),
+    # regression (fixed edb114b): a guarded case followed by a case that could still match (here `case _`) must be refused ...
+    ('WGuard', [{'a': 0, 'b': 0}, {'a': 0, 'b': 0}], 'regression:refuse'),
+    # ... and a guarded case after which nothing can match stays accepted, is Tp.supported (C02.later_noop) and must agree
+    ('WGuardLast', [{'a': 0, 'b': 0}, {'a': 1, 'b': 0}, {'a': 0, 'b': 0}, {'a': 1, 'b': 0}, {'a': 1, 'b': 0}], 'regression:agree'),
     # regression (fixed b2612d8): a match without `case _` must now parse (`default:;`), be Tp.supported and agree cycle by cycle
     ('WNoDefault', [{'a': 0, 'b': 0}, {'a': 0, 'b': 0}, {'a': 1, 'b': 0}, {'a': 0, 'b': 0}], 'regression:agree'),
     # regression (fixed 23b4fbe): `case _ if g:` must be refused by the real transpiler
@@ -812,7 +830,8 @@ WITNESSES = [  # (class, history, expected finding id)
     ('WNarrowAssign', [{'a': 200, 'b': 1}, {'a': 255, 'b': 1}], 'C02-narrow-context'),
     ('WDoublePut', [{'a': 1, 'b': 2}], 'C02-read-after-put'),
     ('WPutInClock', [{'a': 1}, {'a': 5}, {'a': 7}], 'C02-read-after-put'),
-    ('WClash', [{'a': 1, 'b': 0}, {'a': 1, 'b': 0}], 'C02-name-clash'),
+    # regression (fixed 5f87e48): a local named like a self attribute must be refused
+    ('WClash', [{'a': 1, 'b': 0}, {'a': 1, 'b': 0}], 'regression:refuse'),
 ]
 
 
@@ -896,7 +915,8 @@ def run_all(res, tier, rng, tmpdir, quick):
         try:
             d = Dut('witness/' + cname, getattr(wm, cname), [('a', 8, 'in'), ('b', 8, 'out' if cname == 'WPutInClock' else 'in'), ('r', 8, 'out')],
                     src=cname, tags={'WGuardedWildcard': ['refuse:match-guarded-wildcard'], 'WFloatConst': ['refuse:float-const'],
-                          'WValueTarget': ['refuse:assign-to-wire-attr']}.get(cname, []),
+                          'WValueTarget': ['refuse:assign-to-wire-attr'], 'WGuard': ['refuse:guard-with-later-match'],
+                          'WClash': ['refuse:local-named-like-attr']}.get(cname, []),
                     profile='witness')
         except Exception as e:
             res.broken.append(('correspondence', 'witness-build', f'{cname}: {type(e).__name__}: {e}'))
